@@ -189,9 +189,72 @@ def gen_tiger(rng, gamma):
             "obs": obs, "obs_kinds": ["tiger"] * nA}
 
 
+TINY = F(1, 2**30)
+NEAR1 = "1048575/1048576"          # 1 - 2^-20, exact in binary floating point
+LABEL_KINDS = ["int", "str", "tuple", "float"]
+
+
+def dup_action(rng, pc):
+    """a copy of action 0 as a new action: exact tie of the action values at every belief, or (50%) a
+    gap of 2^-30 in the reward of one state (must NOT be treated as a tie)"""
+    new = pc["nA"]
+    gap_state = rng.randrange(pc["n"]) if rng.random() < .5 else None
+    for s in range(pc["n"]):
+        row = [list(e) for e in pc["trans"]["%d,0" % s]]
+        pc["trans"]["%d,%d" % (s, new)] = row
+        for ns, p in row:
+            r = F(pc["reward"].get("%d,0,%d" % (s, ns), "0"))
+            if s == gap_state:
+                r += TINY
+            if r != 0:
+                pc["reward"]["%d,%d,%d" % (s, new, ns)] = str(r)
+        pc["actions"][s] = pc["actions"][s] + [new]
+    for ns in range(pc["n"]):
+        pc["obs"]["%d,%d" % (new, ns)] = [list(e) for e in pc["obs"]["0,%d" % ns]]
+    pc["nA"] = new + 1
+    pc["obs_kinds"] = pc["obs_kinds"] + [pc["obs_kinds"][0]]
+    return "gap" if gap_state is not None else "tie"
+
+
+def tiny_probabilities(rng, pc):
+    """move 2^-30 of probability inside one transition row and one observation row (supports only grow)"""
+    def split(row, universe):
+        pos = [e for e in row if F(e[1]) > 0]
+        e = rng.choice(pos)
+        other = rng.choice([x for x in universe if x != e[0]] or [e[0]])
+        if other == e[0]:
+            return
+        e[1] = str(F(e[1]) - TINY)
+        for e2 in row:
+            if e2[0] == other:
+                e2[1] = str(F(e2[1]) + TINY)
+                break
+        else:
+            row.append([other, str(TINY)])
+    split(pc["trans"][rng.choice(sorted(pc["trans"]))], range(pc["n"]))
+    split(pc["obs"][rng.choice(sorted(pc["obs"]))], range(pc["nO"]))
+
+
+def degenerate_case():
+    """one state, one action, one observation: expand_beliefs finds no new belief at all"""
+    pc = {"n": 1, "nA": 1, "actions": [[0]], "trans": {"0,0": [[0, "1"]]}, "reward": {"0,0,0": "1"},
+          "absorbing": [False], "init": [[0, "1"]], "gamma": "1/2", "nO": 1, "obs": {"0,0": [[0, "1"]]},
+          "obs_kinds": ["single"]}
+    return {"pomdp": pc, "pbvi": {"min_exp": 1, "max_exp": 2, "eps": "1/100", "horizon": 10},   # one reward value: horizon=None divides by rmax-rmin = 0 (reported)
+            "beliefs": [["1"]], "belief_kinds": ["initial"], "qmdp_solvers": ["vi", "pi"], "fullobs": True,
+            "template": "degenerate", "labels": {"states": "int", "actions": "int", "obs": "int"},
+            "reuse": True, "touch_first": False, "initial_index": 0, "variants": ["degenerate"]}
+
+
 def gen_case(rng, tier):
     r = rng.random()
     gamma = rng.choice(GAMMAS)
+    variants = []
+    gb = rng.random()
+    if gb < .06:
+        gamma, _ = "0", variants.append("gamma=0")
+    elif gb < .12:
+        gamma, _ = NEAR1, variants.append("gamma=1-2^-20")
     if r < .35:
         pc = gen_tiger(rng, gamma)
     else:
@@ -205,10 +268,30 @@ def gen_case(rng, tier):
         pc["nO"] = pc["n"]
         pc["obs"] = {"%d,%d" % (a, ns): [[ns, "1"]] for a in range(pc["nA"]) for ns in range(pc["n"])}
         pc["obs_kinds"] = ["identity"] * pc["nA"]
+    # ---- boundary variants ----
+    if pc["nA"] <= 2 and rng.random() < .2:
+        variants.append("duplicate-action-" + dup_action(rng, pc))
+    if rng.random() < .3:
+        for s in range(pc["n"]):
+            if pc["absorbing"][s] and all(pc["trans"]["%d,%d" % (s, a)] == [[s, "1"]] for a in range(pc["nA"])):
+                for a in range(pc["nA"]):
+                    pc["reward"]["%d,%d,%d" % (s, a, s)] = str(rng.choice([-3, 2, 5]))   # must be ignored
+                variants.append("absorbing-selfloop-reward")
+                break
+    if not fullobs and rng.random() < .12:
+        tiny_probabilities(rng, pc)
+        variants.append("probability-2^-30")
+    if rng.random() < .15:
+        k = rng.choice([2**10, 2**20])
+        pc["reward"] = {key: str(F(v) * k) for key, v in pc["reward"].items()}
+        variants.append("rewards-x%d" % k)
     cfg = {"min_exp": rng.choice([0, 1, 2, 3]), "max_exp": rng.choice([1, 2, 3]),
-           "eps": rng.choice(EPSS), "horizon": rng.choice([None, None, 1, 3, 10])}
+           "eps": rng.choice(EPSS + ["1/100", "1", "0"]), "horizon": rng.choice([None, None, 1, 3, 10])}
     if fullobs:
         cfg["min_exp"], cfg["max_exp"] = 3, rng.choice([2, 4])
+    if gamma in ("0", NEAR1) or cfg["eps"] == "0":
+        # horizon=None would need 0 sweeps (gamma=0: raises, reported separately) / ~1e7 sweeps / log(0)
+        cfg["horizon"] = cfg["horizon"] or rng.choice([1, 3, 10])
     sar = [x for row in sa_rewards(pc) for x in row]
     if cfg["horizon"] is None and max(sar) - min(sar) <= 2 * F(cfg["eps"]):
         # point_based_value_iteration divides by (rmax - rmin) and needs a positive sweep count:
@@ -218,10 +301,24 @@ def gen_case(rng, tier):
     rng.shuffle(bl)
     keep = [b for b in bl if b["kind"] in ("initial",)] + [b for b in bl if b["kind"] == "reachable"][:3]
     rest = [b for b in bl if b not in keep]
-    keep += rest[:max(0, 7 - len(keep))]
-    return {"pomdp": pc, "pbvi": cfg, "beliefs": [b["b"] for b in keep],
-            "belief_kinds": [b["kind"] for b in keep], "qmdp_solvers": ["vi", "pi"], "fullobs": fullobs,
-            "template": pc["obs_kinds"][0] if pc["obs_kinds"][0] in ("tiger", "identity") else "random"}
+    keep += rest[:max(0, 6 - len(keep))]
+    beliefs = [b["b"] for b in keep]
+    kinds = [b["kind"] for b in keep]
+    if pc["n"] >= 2:
+        i, j2 = rng.sample(range(pc["n"]), 2)
+        beliefs.append([str(1 - TINY) if x == i else str(TINY) if x == j2 else "0" for x in range(pc["n"])])
+        kinds.append("near-vertex-2^-30")
+    if rng.random() < .5:
+        labels = {"states": "int", "actions": "int", "obs": "int"}
+    else:
+        labels = {"states": rng.choice(LABEL_KINDS), "actions": rng.choice(LABEL_KINDS), "obs": rng.choice(LABEL_KINDS)}
+    if fullobs:
+        labels["obs"] = labels["states"]      # keeps "observation index = state index" in msdm's sorted orders
+    return {"pomdp": pc, "pbvi": cfg, "beliefs": beliefs, "belief_kinds": kinds,
+            "qmdp_solvers": ["pi"] if gamma == NEAR1 else ["vi", "pi"], "fullobs": fullobs,
+            "template": pc["obs_kinds"][0] if pc["obs_kinds"][0] in ("tiger", "identity") else "random",
+            "labels": labels, "reuse": rng.random() < .4, "touch_first": rng.random() < .3,
+            "initial_index": 0 if kinds and kinds[0] == "initial" else None, "variants": variants}
 
 
 def depth_for(pc):
@@ -245,9 +342,17 @@ def absorbing_mask(P, R, absf):
     return out
 
 
-def exact_q(pc):
+def ordered_arrays(pc, order):
+    """exact (P, R, absflag, init, Ob) indexed in the state/action/observation order msdm reports"""
+    sl, al, ol = order
+    P, R, av, absf, ini = gen_mdp.arrays(pc, sl, al)
+    Ob = gen_pomdp.obs_arrays(pc, al, sl, ol)
+    return P, R, absf, ini, Ob
+
+
+def exact_q(pc, order):
     """exact V*, Q* of the underlying masked MDP"""
-    P, R, absf, ini, Ob = gen_pomdp.exact_arrays(pc)
+    P, R, absf, ini, Ob = ordered_arrays(pc, order)
     n, nA = pc["n"], pc["nA"]
     g = F(pc["gamma"])
     masked = absorbing_mask(P, R, absf)
@@ -260,8 +365,8 @@ def exact_q(pc):
     return Vs, Qs, masked
 
 
-def pomdp_term(pc, mk="mkp"):
-    P, R, absf, ini, Ob = gen_pomdp.exact_arrays(pc)
+def pomdp_term(pc, order, mk="mkp"):
+    P, R, absf, ini, Ob = ordered_arrays(pc, order)
     return "(%s %s %s %s %s %s %s %s %s %s)" % (
         mk, nat(pc["n"]), nat(pc["nA"]), nat(pc["nO"]), qten(P), qten(R), blist(absf), qlist(ini),
         q(pc["gamma"]), qten(Ob))
@@ -304,7 +409,7 @@ def run(ctx):
     if ctx.replay_case:
         cases = [ctx.replay_case["detail"]["case"]]
     else:
-        cases = [gen_case(ctx.rng, tier) for _ in range(ncases)]
+        cases = [degenerate_case()] + [gen_case(ctx.rng, tier) for _ in range(ncases - 1)]
     shards = min(ctx.jobs, 8 if tier == "quick" else 16)
     impl = ctx.impl("c08_impl.py", {"cases": cases}, shards=shards)["results"]
 
@@ -319,11 +424,13 @@ def run(ctx):
             ctx.violation("C08:impl-error:" + res["error"].split(":")[0], {"case": case, "error": res["error"]}, found=True)
             continue
         n, nA, nO = pc["n"], pc["nA"], pc["nO"]
-        if res["state_list"] != list(range(n)) or res["action_list"] != list(range(nA)) or \
-                res["observation_list"] != list(range(nO)):
+        order = (res["state_list"], res["action_list"], res["observation_list"])
+        if sorted(order[0]) != list(range(n)) or sorted(order[1]) != list(range(nA)) or \
+                sorted(order[2]) != list(range(nO)):
             ctx.violation("C08:harness:index-order", {"case": case, "lists": [res["state_list"], res["action_list"], res["observation_list"]]}, found=False)
             continue
-        Vs, Qs, masked = exact_q(pc)
+        Vs, Qs, masked = exact_q(pc, order)
+        beliefs = [[b[sx] for sx in order[0]] for b in case["beliefs"]]      # in msdm's state order
         if Vs is None or masked != res["absorbing_vec"]:
             ctx.violation("C08:harness:oracle-or-mask", {"case": case, "masked": masked, "impl_mask": res["absorbing_vec"]}, found=False)
             continue
@@ -333,8 +440,8 @@ def run(ctx):
         tol = F(1, 10**9) * scale
         ptol = F(1, 10**12)
         k = depth_for(pc)
-        pt = pomdp_term(pc)
-        info[i] = {"tol": tol, "k": k, "Qs": Qs, "Vs": Vs}
+        pt = pomdp_term(pc, order)
+        info[i] = {"tol": tol, "k": k, "Qs": Qs, "Vs": Vs, "order": order, "beliefs": beliefs}
         counters["absorbing_cases"] += int(any(masked))
         counters["neg_reward_cases"] += int(any(F(r) < 0 for r in pc["reward"].values()))
         counters["fullobs_cases"] += int(case.get("fullobs", False))
@@ -356,6 +463,9 @@ def run(ctx):
                 counters["pbvi_runs"] += 1
                 counters["multi_call_runs"] += int(pb["n_calls"] > 1)
                 H = resolved_horizon(pc, case["pbvi"])
+                # alpha vectors of at most H sweeps are bounded by rmax * min(H + 1, 1/(1-gamma)): tighter tol
+                tolp = min(tol, F(1, 10**9) * max(F(1), max([F(1)] + sar) * min(F(H + 1), 1 / (1 - g))))
+                info[i]["tolp"] = tolp
                 it = lc["iterations"]
                 j = it + 1 if (lc["returned_is_last_sweep"] and it == H - 1) else it
                 info[i].update({"H": H, "j": j})
@@ -363,8 +473,8 @@ def run(ctx):
                 B = lc["belief_set"]
                 pts = B[:6]
                 terms.append("pb_rep %s %s %s %s %s %s %s %s %s %s" % (
-                    pt, q(tol), q(ptol), nat(k), nat(j), vlib.b(j <= 25), qmat(G), qmat(Qs),
-                    entries(case["beliefs"], pb["queries"]), qmat(pts)))
+                    pt, q(tolp), q(ptol), nat(k), nat(j), vlib.b(j <= 25), qmat(G), qmat(Qs),
+                    entries(beliefs, pb["queries"]), qmat(pts)))
                 meta.append(("pb", i))
                 ents = rep_entries(pb["queries"])
                 if ents:
@@ -373,13 +483,13 @@ def run(ctx):
                     meta.append(("gr:pb", i))
                 nb = min(len(B), 8)
                 terms.append("sw %s %s %s %s %s %s" % (
-                    pt, q(tol), qmat(lc["prev_alpha_vectors"]), qmat(B[:nb]), qten(lc["candidates"][:nb]),
+                    pt, q(tolp), qmat(lc["prev_alpha_vectors"]), qmat(B[:nb]), qten(lc["candidates"][:nb]),
                     vlib.natlist(lc["selected"][:nb])))
                 meta.append(("sw", i))
                 work = (min(j + 1, H)) * len(B) * nA * nO * (len(B) + n)
                 if work <= mirror_budget:
                     terms.append("mir %s %s %s %s %s %s %s" % (
-                        pomdp_term(pc, "mkpB"), nat(H), q(tol), q(lc["eps"]), qmat(B), qmat(G), q(tol)))
+                        pomdp_term(pc, order, "mkpB"), nat(H), q(tolp), q(lc["eps"]), qmat(B), qmat(G), q(tolp)))
                     meta.append(("mir", i))
                 else:
                     counters["mirror_skipped_budget"] += 1
@@ -400,7 +510,7 @@ def run(ctx):
             qtol = F(1, 10**8) * scale
             terms.append("q_rep %s %s %s %s %s %s %s %s" % (
                 pt, q(qtol), q(tol + qtol * 2), q(ptol), nat(k), qlist(Vs), qmat(qr["Q"]),
-                entries(case["beliefs"], qr["queries"])))
+                entries(beliefs, qr["queries"])))
             meta.append(("q:" + name, i))
             ents = rep_entries(qr["queries"])
             if ents:
@@ -424,6 +534,7 @@ def run(ctx):
             ctx.violation("C08:coq-evaluation-failed", dict(base, kind=kind, error=str(v)[:800]), found=False)
             continue
         if kind == "pb":
+            tol = info[i].get("tolp", tol)
             pb = res["pbvi"]
             wf, fullobs, per_b, per_pt = v
             if not wf:
@@ -480,7 +591,7 @@ def run(ctx):
             B = pb["last_call"]["belief_set"]
             closed = False
             if fullobs:
-                closed = fullobs_closed(pc, B)
+                closed = fullobs_closed(pc, B, info[i]["order"])
                 counters["fullobs_closed_sets"] += int(closed)
             for bi, e in enumerate(per_pt):
                 up, leq, cross, fge = e
@@ -536,7 +647,8 @@ def run(ctx):
             Qs = info[i]["Qs"]
             if not qt_ok:
                 worst = max(abs(fr(qr["Q"][s][a]) - Qs[s][a]) for s in range(pc["n"]) for a in range(pc["nA"]))
-                ctx.violation("C08:qmdp-%s:table-is-not-the-optimal-action-values" % name,
+                near1 = F(pc["gamma"]) >= 1 - F(1, 10**5)
+                ctx.violation("C08:qmdp-%s:table-is-not-the-optimal-action-values%s" % (name, ":discount-within-1e-5-of-1" if near1 else ""),
                               dict(base, Q=qr["Q"], Q_exact=[[str(x) for x in r] for r in Qs], worst=str(worst)),
                               found=bool(worst > tol * 100))
             fullobs = bool(case.get("fullobs"))
@@ -585,9 +697,9 @@ def run(ctx):
     })
 
 
-def fullobs_closed(pc, B):
+def fullobs_closed(pc, B, order):
     """every positive-probability successor vertex (masked dynamics) of every point of B is in B"""
-    P, R, absf, ini, Ob = gen_pomdp.exact_arrays(pc)
+    P, R, absf, ini, Ob = ordered_arrays(pc, order)
     n, nA = pc["n"], pc["nA"]
     masked = absorbing_mask(P, R, absf)
     Bf = [[fr(x) for x in b] for b in B]
